@@ -158,6 +158,10 @@ func CompileWith(s *Scenario, ignoreNotSupported bool) *Compiled {
 				c.conflict("augment %s: relative path at the top level of a module", stepsString(a.Target))
 				continue
 			}
+			if a.BadPrefix > 0 && a.BadPrefix < len(a.Target) {
+				c.conflict("augment %s: step %d carries a prefix that the text does not declare", stepsString(a.Target), a.BadPrefix)
+				continue
+			}
 			todo = append(todo, pending{m, a})
 		}
 	}
